@@ -515,7 +515,7 @@ func seedPayloads() map[string][][]byte {
 	cfc := wire.NewMsgCFCheckpt(wire.GCSFilterRegular, &h1, 1)
 	_ = cfc.AddCFHeader(&h2)
 	enc(cfc, pv)
-	enc(wire.NewMsgProtoconf(2 * 1024 * 1024), 70016)
+	enc(wire.NewMsgProtoconf(2*1024*1024), 70016)
 	out["authch"] = [][]byte{{1, 2, 3, 4, 5, 6, 7, 8}, {}}
 	c14Seeds = out
 	return out
